@@ -25,3 +25,28 @@ native('C01.display', ['C01'], 'bounded', 'Fold states with 0..=2 sublores of 0.
        'crates/air-lib/interpreter-data/src/executed_state/impls.rs', 'display_state.rs',
        'verif_native_display::display_is_total_on_malformed_fold',
        what='Display for ExecutedState (reached through KeeperError::NoStreamState\'s message) does not panic on a fold lore with a wrong number of descriptors (F9b)')
+native('C15.merge', ['C15'], 'bounded', 'every pair of CID vectors of length <= 3 over 3 literals (40 x 40 = 1600 pairs), one shared peer + one peer known to one side',
+       'air-interpreter-data', 'crates/air-lib/interpreter-data/src/interpreter_data/verification.rs', 'multiset_merge.rs',
+       'verif_native_multiset::merge_keeps_the_larger_multiset_or_rejects',
+       what='real HashMap code: to_count_map = multiset of its argument (the link assumed by unit multisubset); is_multisubset <=> multiset '
+            'inclusion; DataVerifier::merge = Err(MergeMismatch) <=> neither multiset contains the other, else the stored signature is the one '
+            'that came with the larger multiset, and peers known to one side only are kept')
+native('C13.cursor', ['C13'], 'bounded', 'initial stream of <= 3 values over {previous(0), previous(1), current(0), current(1)}, then <= 3 fold iterations appending 0..=2 new values each',
+       'aquavm-air', 'air/src/execution_step/value_types/stream/recursive_stream.rs', 'cursor.rs',
+       'verif_native_cursor::fold_visits_each_value_once',
+       what='RecursiveStreamCursor::{met_fold_start, met_iteration_end} on the real Stream: the generations handed to the fold contain every stream value exactly once, including values appended while the fold runs')
+native('C27.roundtrip', ['C27'], 'bounded', 'codec, expected over 15 varint-length boundary values each, 5 payload bytes (1125 triples)',
+       'air-interpreter-sede', 'crates/air-lib/interpreter-sede/src/multiformat.rs', 'multiformat_rt.rs',
+       'verif_native_multiformat::multiformat_round_trip_on_boundaries',
+       what='real unsigned_varint: decode_multiformat(encode_multiformat(v, codec), expected) = Ok(v) iff codec == expected else Err(Codec(codec)); truncated input is an error (the varint round-trip axiom of unit multiformat, on the grid)')
+native('C01.tracepos', ['C01', 'C09'], 'bounded', '9 x 9 boundary grid of u32 operands', 'air-interpreter-data',
+       'crates/air-lib/interpreter-data/src/trace_pos.rs', 'tracepos_shim.rs', 'verif_native_tracepos::operators_match_the_shim',
+       what='conformance of the trusted TracePos shim: the newtype_derive operators panic exactly on overflow/underflow, conversions are the identity')
+native('C21.gate', ['C21'], 'bounded', '3 x 3 x 3 x 3 grid of versions around min_supported_version() (81 versions, all triples for transitivity)',
+       'aquavm-air', 'air/src/preparation_step/preparation.rs', 'version_gate.rs', 'verif_native_version::gate_rejects_exactly_older_versions',
+       what='the real semver::Version order is a strict total lexicographic order on the grid (the axiom of unit version) and the real check_version_compatibility rejects exactly versions < min with the right payload; empty data passes')
+native('C01.collect_cids', ['C01'], 'proof', None, 'air-interpreter-data',
+       'crates/air-lib/interpreter-data/src/interpreter_data/verification.rs', 'collect_cids.rs',
+       'verif_native_collect_cids::data_verifier_new_is_total_on_dangling_trace_references',
+       what='finite: each of the four store lookups of collect_peers_cids_from_trace (service result, its tetraplet, canon result, its tetraplet) '
+            'with the referenced CID present or missing (16 combinations): DataVerifier::new returns, never panics (F5)')
